@@ -63,6 +63,7 @@ def run(ctx):
     from . import c17
     c17._api(ctx, ctx.model, rule='C03.D5', only=('zincparser',))
     c17.zone_applied(ctx, ctx.model, 'C03.D5', 'zincparser', '_parse_datetime', 'zinc', catches=True)
+    c17.map_publication(ctx, ctx.model, 'C03.D5')
     _zinc.quantity_split(ctx, 'C03.D1')
     _zinc.time_literal_exact(ctx, 'C03.D1', 'zincparser')
     from . import _dump
